@@ -53,6 +53,14 @@ for name, data in corpus():
     if ln != len(data):
         continue
     good.append((name, data))
+# frames whose stated length disagrees with the opcode boundaries (pickletools and the accelerated unpickler accept them): understated so
+# that the frame ends inside a variable-length argument, overstated, and ending exactly on a boundary
+import struct  # noqa: E402
+for j, payload in enumerate([b"\x8c\x05hello\x94\x8c\x03abc\x94\x86.", b"C\x04\x00\x01\x02\x03\x94.", b"X\x06\x00\x00\x00abcdef\x94\x8c\x02xy\x86."]):
+    for k in sorted({1, 2, 3, 4, 5, len(payload) // 2, len(payload) - 2, len(payload), len(payload) + 7}):
+        if k >= 0:
+            good.append((f"frame-{j}-len{k}-of-{len(payload)}", b"\x80\x04\x95" + struct.pack("<Q", k) + payload))
+good = [(nm, d) for nm, d in good if first_len(d) == len(d)]
 for name, data in good:
     n += 1
     trail = rnd.choice([b"", b"TRAIL", b"\x00\xff.", b"N."])
@@ -88,4 +96,8 @@ for k in range(60):
         got = f"raises {type(e).__name__}"
     if got != parts:
         fails.append({"program": f"stack{k}", "bytes": blob.hex(), "how": "stacked bytes", "what": f"{len(parts)} pickles in, parts equal: {got == parts}"})
-print(json.dumps({"failures": fails[:20], "n_failures": len(fails), "programs": n, "stacks": 60}))
+by_how = {}
+for f in fails:
+    by_how.setdefault(f["how"], []).append(f)
+fails_out = [f for fl in by_how.values() for f in fl[:10]]       # every way of delivery is represented in the report
+print(json.dumps({"failures": fails_out, "n_failures": len(fails), "programs": n, "stacks": 60}))
